@@ -299,6 +299,15 @@ func (c *Ctx) globalAliasWrites(f *ssa.Function) []globalWrite {
 						out = append(out, globalWrite{g, in, "map update through an alias"})
 					}
 				}
+				if g := taint[x.Value]; g != nil && taint[x.Map] == nil && isContainer(x.Value.Type()) {
+					out = append(out, globalWrite{g, in, "stored into another map, which then shares its data"})
+				}
+			case *ssa.Return:
+				for _, rv := range x.Results {
+					if g := taint[rv]; g != nil && f.Object() != nil && isContainer(rv.Type()) {
+						out = append(out, globalWrite{g, in, "returned to the caller, which then shares its data"})
+					}
+				}
 			case ssa.CallInstruction:
 				com := x.Common()
 				if bi, ok := com.Value.(*ssa.Builtin); ok {
@@ -329,6 +338,10 @@ func (c *Ctx) globalAliasWrites(f *ssa.Function) []globalWrite {
 						c.imm().solve()
 						if sum.Writes {
 							out = append(out, globalWrite{g, in, "passed to " + c.P.FuncID(callee) + ", which writes through that argument"})
+						} else if (sum.RetAlias || len(sum.Flows) > 0) && isContainer(a.Type()) {
+							// the callee keeps the reference in what it returns / fills: the shared data becomes part of
+							// a value that is later modified in place (merged, normalised, resolved)
+							out = append(out, globalWrite{g, in, "handed to " + c.P.FuncID(callee) + ", which keeps a reference to it in its result"})
 						}
 					}
 				}
@@ -336,4 +349,14 @@ func (c *Ctx) globalAliasWrites(f *ssa.Function) []globalWrite {
 		}
 	}
 	return out
+}
+
+// isContainer: a map or slice (possibly boxed): data that the pipeline modifies in place. Pointers to library
+// objects (a compiled regexp) are handed around on purpose.
+func isContainer(t types.Type) bool {
+	switch t.Underlying().(type) {
+	case *types.Map, *types.Slice:
+		return true
+	}
+	return false
 }
